@@ -42,12 +42,13 @@ class State:
         if my_predicates != other_predicates:
             return False
 
+        # comparing the values as numbers and not as text, so that 2, 2.0 and 0.0, -0.0 are the same value.
         my_numeric_expressions = {
-            expression.state_representation
+            expression.untyped_representation: expression.value
             for expression in self.state_fluents.values()
         }
         other_numeric_expressions = {
-            expression.state_representation
+            expression.untyped_representation: expression.value
             for expression in other.state_fluents.values()
         }
 
